@@ -15,7 +15,8 @@ Import ListNotations.
 From TI Require Import lib.Term lib.TermFacts lib.Rect lib.Lines model.Block model.GfxRender
      proofs.BlockRect proofs.GfxRect
      model.RenderSession model.RenderTie model.RenderSessionTie proofs.RenderSessionProofs
-     model.TermIdent model.TermIdentTie proofs.TermIdentProofs proofs.TermIdentTieProofs.
+     model.TermIdent model.TermIdentTie proofs.TermIdentProofs proofs.TermIdentTieProofs
+     lib.RectCheck model.KittyQuirk model.KittyQuirkTie proofs.KittyQuirkProofs.
 Open Scope Z_scope.
 
 (** block style: every pixel content, alpha mode, kitty work-around, terminal background,
@@ -195,3 +196,68 @@ Theorem C01_ident_tie_sound :
     RectOn (kind_of (ic_ident c)) mix (ic_w c) (ic_h c) (ic_obs c).
 Proof. exact ident_tie_sound. Qed.
 Print Assumptions C01_ident_tie_sound.
+
+(** ** Round 9: coverage under the quirks of the terminal the render is made for (model/KittyQuirk.v)
+
+    kitty does not paint a cell background equal to the terminal's DEFAULT background colour:
+    [covered_on kitty dbg] is coverage on such a terminal.  Every block render (every pixel content,
+    alpha mode, kitty or not, default background known or not, split cells, every size) covers every
+    cell of its rectangle on the terminal it is made for, and appends only painted events. *)
+Theorem C01_kitty_default_bg_cells_covered :
+  forall (alpha kitty : bool) (bgcol : option rgb) (split : bool) (w : nat) (rows : list (list px)),
+    rows <> [] -> (0 < w)%nat -> (forall r, In r rows -> length r = w) ->
+    forall lm t, clean t -> col t = lm -> sgr t = adefault ->
+    exists evs, log (exec lm t (Block.render alpha kitty bgcol split rows)) = log t ++ evs
+      /\ forallb (ev_painted kitty bgcol) evs = true
+      /\ forall r c, row t <= r < row t + Z.of_nat (length rows) -> lm <= c < lm + Z.of_nat w ->
+           covered_on kitty bgcol evs r c = true.
+Proof. exact kitty_default_bg_cells_covered. Qed.
+Print Assumptions C01_kitty_default_bg_cells_covered.
+
+(** the design that applies the work-around to solid cells only is excluded: a half-block cell
+    whose lower pixel is the default background is not covered (the plain contract still holds) *)
+Theorem C01_kitty_default_bg_solid_only_refuted :
+  exists (d : rgb) (p : px),
+    quirk_cover_checkb true (Some d) 1 1 0 0 (render1_solid_only false true (Some d) false p) = false
+    /\ rect_checkb 1 1 0 0 (render1_solid_only false true (Some d) false p) = true.
+Proof. exact kitty_default_bg_solid_only_refuted. Qed.
+Print Assumptions C01_kitty_default_bg_solid_only_refuted.
+
+(** a kitty transmission is displayed only if accepted on ITS OWN control data (decoded payload
+    = s*v*f/8 bytes).  Control data a function of the line only => every line is accepted, for
+    every opacity pattern of the lines (the code: [line_tx], f = the render's format). *)
+Theorem C01_kitty_lines_control_data_per_line :
+  forall (pol : bool -> Z) (s v : Z), (forall o, pol o = 24 \/ pol o = 32) ->
+  forall ls : list bool, forallb accepted (map (policy_tx pol s v) ls) = true.
+Proof. exact kitty_lines_control_data_per_line. Qed.
+Print Assumptions C01_kitty_lines_control_data_per_line.
+
+(** the code's LINES render AS DISPLAYED (rejected transmissions place nothing) meets the contract *)
+Theorem C01_kitty_lines_shown_rect :
+  forall (rgba : bool) (s v : Z) (ls : list bool) (w h z : Z) (mix blend : bool),
+    0 < w -> 0 < h -> forall pls : list (list Z), Z.of_nat (length pls) = h ->
+    Rect w h (accept_view (map accepted (lines_txs rgba s v ls)) true (kitty_lines w z mix blend pls)).
+Proof. exact kitty_lines_shown_rect. Qed.
+Print Assumptions C01_kitty_lines_shown_rect.
+
+(** excluded: a sticky [f] on control data shared by the lines *)
+Theorem C01_kitty_lines_sticky_refuted :
+  exists (s v : Z) (ls : list bool) (pls : list (list Z)),
+    forallb accepted (sticky_txs s v 32 ls) = false
+    /\ gfx_shown_checkb (sticky_txs s v 32 ls) 3 2 (kitty_lines 3 0 false true pls) = false
+    /\ rect_checkb 3 2 0 0 (accept_view (map accepted (sticky_txs s v 32 ls)) true (kitty_lines 3 0 true true pls)) = false
+    /\ gfx_shown_checkb (lines_txs true s v ls) 3 2 (kitty_lines 3 0 false true pls) = true.
+Proof. exact kitty_lines_sticky_refuted. Qed.
+Print Assumptions C01_kitty_lines_sticky_refuted.
+
+(** soundness of the executable quirk comparison (block) *)
+Theorem C01_quirk_tie_sound :
+  forall (c : qcase) alpha kitty bgcol split rows (w : nat),
+    q_render c = QBlock alpha kitty bgcol split rows -> qmodel_ok c = true ->
+    rows <> [] -> (0 < w)%nat -> (forall r, In r rows -> length r = w) ->
+    forall lm t, clean t -> col t = lm -> sgr t = adefault ->
+    exists evs, log (exec lm t (q_obs c)) = log t ++ evs
+      /\ forall r cc, row t <= r < row t + Z.of_nat (length rows) -> lm <= cc < lm + Z.of_nat w ->
+           covered_on kitty bgcol evs r cc = true.
+Proof. exact quirk_tie_sound. Qed.
+Print Assumptions C01_quirk_tie_sound.
